@@ -94,11 +94,13 @@ func Run(o Options) int {
 			return 2
 		}
 	}
+	// input classes of the recorded findings, for every property: a dependency unit may carry a finding that is
+	// reported under another property
 	classes := map[string][]string{}
+	findingProp := map[string]string{}
 	for _, f := range known.Findings {
-		if f.Property == o.Prop {
-			classes[f.Obligation] = append(classes[f.Obligation], f.Class)
-		}
+		classes[f.Obligation] = append(classes[f.Obligation], f.Class)
+		findingProp[f.Obligation] = f.Property
 	}
 	units := w.UnitsFor(o.Prop)
 	if o.Sweep {
@@ -125,7 +127,6 @@ func Run(o Options) int {
 	}
 	if o.KeepFiles {
 		fmt.Fprintln(os.Stderr, "govc: SMT files kept in", tmp)
-		defer func() {}()
 	}
 
 	type unitOut struct {
@@ -133,27 +134,60 @@ func Run(o Options) int {
 		sts []solve.Status
 		err error
 	}
-	outs := make([]unitOut, len(units))
-	var wg sync.WaitGroup
-	sem := make(chan struct{}, 12)
-	var mu sync.Mutex
-	_ = mu
-	for i, u := range units {
-		wg.Add(1)
-		go func(i int, u *vc.Unit) {
-			defer wg.Done()
-			sem <- struct{}{}
-			defer func() { <-sem }()
-			res := w.VerifyWith(u, classes)
-			outs[i].res = res
-			if res.Err != "" {
-				return
-			}
-			sts, err := solve.Unit(res, sopt)
-			outs[i].sts, outs[i].err = sts, err
-		}(i, u)
+	var outs []unitOut
+	isDep := map[string]bool{}      // units verified because a unit of the property uses their contract
+	have := map[string]bool{}       // unit keys scheduled
+	assumedModels := map[string]bool{} // interface-method contracts used (model contracts, implementations not checked)
+	for _, u := range units {
+		have[u.Key] = true
 	}
-	wg.Wait()
+	sem := make(chan struct{}, 12)
+	round := units
+	units = nil
+	for len(round) > 0 {
+		base := len(outs)
+		outs = append(outs, make([]unitOut, len(round))...)
+		var wg sync.WaitGroup
+		for i, u := range round {
+			wg.Add(1)
+			go func(i int, u *vc.Unit) {
+				defer wg.Done()
+				sem <- struct{}{}
+				defer func() { <-sem }()
+				res := w.VerifyWith(u, classes)
+				outs[base+i].res = res
+				if res.Err != "" {
+					return
+				}
+				sts, err := solve.Unit(res, sopt)
+				outs[base+i].sts, outs[base+i].err = sts, err
+			}(i, u)
+		}
+		wg.Wait()
+		units = append(units, round...)
+		var next []*vc.Unit
+		if !o.Sweep && o.UnitFilter == "" {
+			for i := range round {
+				res := outs[base+i].res
+				if res == nil {
+					continue
+				}
+				for _, k := range res.UsedContracts {
+					if have[k] {
+						continue
+					}
+					have[k] = true
+					if du := w.UnitByKey(k); du != nil {
+						isDep[du.Name] = true
+						next = append(next, du)
+					} else if w.ContractKind(k) == "interface-model" {
+						assumedModels[k] = true
+					}
+				}
+			}
+		}
+		round = next
+	}
 
 	var problems []string
 	problems = append(problems, relevantProblems(w, o.Prop)...)
@@ -198,7 +232,7 @@ func Run(o Options) int {
 				}
 				continue
 			}
-			if !o.Sweep && !uo.res.Belongs(ob, o.Prop) {
+			if !o.Sweep && !isDep[u.Name] && !uo.res.Belongs(ob, o.Prop) {
 				continue
 			}
 			if o.Sweep && ob.Kind != "safe" {
@@ -276,9 +310,14 @@ func Run(o Options) int {
 		base := strings.TrimSuffix(g.Name, "|known")
 		what := ""
 		for _, f := range known.Findings {
-			if f.Property == o.Prop && f.Obligation == base {
+			if f.Obligation == base {
 				what = f.What
 			}
+		}
+		if fp := findingProp[base]; fp != o.Prop {
+			// a dependency unit carries a finding that is recorded and reported under another property
+			knownEv = append(knownEv, map[string]any{"obligation": base, "what": what, "solver": g.Detail, "reported_under": fp})
+			continue
 		}
 		if g.Result == "failed" {
 			path := writeReplay(o, g, "known")
@@ -332,7 +371,16 @@ func Run(o Options) int {
 		o.Prop, o.Tier, obligations, discharged, len(failedGroups), len(knownGroups), len(functions), wall)
 
 	if o.Evidence != "" {
-		writeEvidence(o, seed, wall, obligations, discharged, len(violations), functions, perObl, knownEv, dedup(notes), dedup(trusted), problems, float64(solverMs)/1000, groups, order)
+		var models, deps []string
+		for k := range assumedModels {
+			models = append(models, vc.ShortKey(k))
+		}
+		sort.Strings(models)
+		for k := range isDep {
+			deps = append(deps, k)
+		}
+		sort.Strings(deps)
+		writeEvidence(o, seed, wall, obligations, discharged, len(violations), functions, perObl, knownEv, dedup(notes), dedup(trusted), problems, float64(solverMs)/1000, groups, order, models, deps)
 	}
 	return exit
 }
